@@ -185,6 +185,11 @@ fn respond(line: &str) -> Option<String> {
             io::FAULT_KIND.with(|c| c.set(Other));
             Some(answer)
         }
+        // (harness only) a visitor that overrides the leaf callbacks only
+        ["walkleaf", src, f] => {
+            let f = optional_index(f)?;
+            parse(&unx(src)?).ok().map(|program| walk::walk_leaves(&program, f))
+        }
         // (harness only) one runner reused: K walks failing at W, then the walk that is reported
         ["walkseq", src, w, k, f] => {
             let (w, k, f) = (optional_index(w)?, k.parse().ok()?, optional_index(f)?);
